@@ -318,3 +318,63 @@ def metamorphic(ctx, count):
                                                      "left": [a.layout, a.style, a.phys], "right": [b.layout, b.style, b.phys]},
                      got, None, want, hyp=hyp, features=(f"layout={a.layout}", f"layout={b.layout}", "equals_pairwise"),
                      spec_ok=(got == want), mode="spec", nontrivial=a.nontrivial())
+
+
+
+def case_construction_history(ctx):
+    """construction history: an object reached by copying another one and changing rows IN PLACE (tables of another
+    size, a missing value) — and the object it was copied from — behave like objects built afresh from their own
+    rows, whichever of the two is asked first and whatever was read before the change"""
+    rng = ctx.rng
+    s = Subject(ctx, allow_hidden=False, nrows=rng.randint(2, 6))
+    ty = s.ty
+    a = s.series()
+    n = len(a)
+
+    def observe(x):
+        return {"list_lengths": [int(v) for v in x.nest.list_lengths], "flat_length": int(x.nest.flat_length),
+                "list_index": [int(v) for v in x.array.get_list_index()],
+                "flat_index": export.labels(x.nest.get_flat_index()),
+                # (the fresh object is built from the element view, which does not tell NaN from null)
+                "to_flat": (lambda v: {"index": v["index"], "cols": [[c[0], c[1], [weak(z) for z in c[2]]] for c in v["cols"]]})(
+                    export.flat_df_view(x.nest.to_flat())),
+                "filled": colres(x.nest.with_filled_field("zz_fill", np.arange(len(x), dtype=np.int64)).array)}
+
+    def fresh_like(x):
+        rows = list(x)
+        return pd.Series(NestedExtensionArray.from_sequence(rows, dtype=x.dtype), index=x.index, name=x.name)
+    read_first = rng.random() < 0.5
+    if read_first:
+        call_real(lambda: observe(a))
+    b = a.copy()
+    target = rng.choice(["copy", "original"])
+    tgt = b if target == "copy" else a
+    steps = []
+    for _ in range(rng.randint(1, 2)):
+        pos = rng.randrange(n)
+        row = gen.rand_row(rng, ty, p_missing=0.25, p_empty=0.2, maxlen=4)
+        steps.append([pos, row])
+        r = call_real(lambda: tgt.array.__setitem__(pos, df_of_row(row, ty)))
+        if "err" in r:
+            return
+    order = [("a", a), ("b", b)]
+    if rng.random() < 0.5:
+        order.reverse()
+    real, want = {}, {}
+    # the summary views of both objects first, one right after the other (nothing in between that could refresh
+    # whatever one of them remembers), then every view of each
+    quick = {nm: call_real(lambda: {"list_lengths": [int(v) for v in x.nest.list_lengths], "flat_length": int(x.nest.flat_length)})
+             for nm, x in order}
+    for nm, x in order:
+        real[nm] = call_real(lambda: observe(x))
+        if "ok" in real[nm]:
+            real[nm]["ok"]["asked_first"] = quick[nm]
+    for nm, x in order:
+        want[nm] = call_real(lambda: observe(fresh_like(x)))
+        if "ok" in want[nm]:
+            want[nm]["ok"]["asked_first"] = {"ok": {k: want[nm]["ok"][k] for k in ("list_lengths", "flat_length")}}
+    for nm, _ in order:
+        ctx.case("history.copy_then_setitem", {**s.desc(), "steps": steps, "target": target, "asked_first": order[0][0],
+                                               "read_before": read_first, "object": nm}, real[nm], None, want[nm],
+                 hyp=s.hyp, features=("construction_history", f"target={target}", f"first={order[0][0]}", f"read_before={read_first}"),
+                 nontrivial=True)
